@@ -66,7 +66,8 @@ func runC18(c *eng.Ctx, tier string) {
 			continue
 		}
 		for _, prm := range f.Params {
-			if isByteSlice(prm.Type()) && prm.Name() == "value" {
+			// the value being put: the []byte parameter of a DB / kv / Client method
+			if isByteSlice(prm.Type()) && (recvIs(f, "db", "DB") || recvIs(f, "db", "kv") || recvIs(f, setecPkg, "Client")) {
 				sources = append(sources, prm)
 			}
 		}
@@ -212,8 +213,8 @@ func runC18(c *eng.Ctx, tier string) {
 
 func c18CLI(c *eng.Ctx) {
 	p := c.P
-	runPut := p.Func("cmd/setec", "runPut")
-	check := p.Func("cmd/setec", "checkPutText")
+	runPut := anchor(p, "cmd/setec", "runPut")
+	check := anchor(p, "cmd/setec", "checkPutText")
 	if runPut == nil || check == nil {
 		c.Undecided("R-C18-3", nil, 0, "cmd/setec.runPut / checkPutText", "anchors do not resolve")
 		return
@@ -228,7 +229,7 @@ func c18CLI(c *eng.Ctx) {
 			return false
 		}
 		g, isG := fa.X.(*ssa.Global)
-		return isG && g.Name() == "putArgs" && eng.FieldName(fa.X.Type(), fa.Field) == name
+		return isG && g.Pkg == check.Pkg && eng.FieldName(fa.X.Type(), fa.Field) == name
 	}
 	// (iii) checkPutText
 	val := check.Params[0]
